@@ -1003,3 +1003,312 @@ Proof.
 Qed.
 
 End Closed.
+
+(* ------------------------------------------------------------------ *)
+(* whole programs: the compiler state as a prefix of the final one *)
+Section Prefix.
+Context {Q : Type}.
+
+Definition pre (a b : @cstate Q) : Prop :=
+  (exists r, s_consts b = s_consts a ++ r) /\
+  (exists r, s_main b = s_main a ++ r) /\
+  (exists r, s_fns b = s_fns a ++ r) /\
+  (exists r, c_ffi (s_env b) = c_ffi (s_env a) ++ r) /\
+  (exists r, c_structs (s_env b) = c_structs (s_env a) ++ r).
+
+Lemma pre_refl : forall a, pre a a.
+Proof. intro a. repeat split; exists []; rewrite app_nil_r; reflexivity. Qed.
+
+Lemma pre_trans : forall a b c, pre a b -> pre b c -> pre a c.
+Proof.
+  intros a b c (A1 & A2 & A3 & A4 & A5) (B1 & B2 & B3 & B4 & B5).
+  repeat split.
+  - destruct A1 as [r1 E1], B1 as [r2 E2]. exists (r1 ++ r2). rewrite E2, E1, app_assoc. reflexivity.
+  - destruct A2 as [r1 E1], B2 as [r2 E2]. exists (r1 ++ r2). rewrite E2, E1, app_assoc. reflexivity.
+  - destruct A3 as [r1 E1], B3 as [r2 E2]. exists (r1 ++ r2). rewrite E2, E1, app_assoc. reflexivity.
+  - destruct A4 as [r1 E1], B4 as [r2 E2]. exists (r1 ++ r2). rewrite E2, E1, app_assoc. reflexivity.
+  - destruct A5 as [r1 E1], B5 as [r2 E2]. exists (r1 ++ r2). rewrite E2, E1, app_assoc. reflexivity.
+Qed.
+
+Lemma add_key_pre : forall x l, exists r, add_key x l = l ++ r.
+Proof.
+  intros. unfold add_key. destruct (index_of x l); [exists []; rewrite app_nil_r | exists [x]]; reflexivity.
+Qed.
+
+Lemma add_struct_pre : forall n fs l, exists r, add_struct n fs l = l ++ r.
+Proof.
+  intros. unfold add_struct. destruct (index_of n (map fst l)); [exists []; rewrite app_nil_r | exists [(n, fs)]]; reflexivity.
+Qed.
+
+Lemma cstmt_pre : forall (s : stmt Q) st, pre st (cstmt s st).
+Proof.
+  intros s st. unfold pre. destruct s; simpl.
+  - repeat split; try (exists []; rewrite app_nil_r; reflexivity); eexists; reflexivity.
+  - repeat split; try (exists []; rewrite app_nil_r; reflexivity); eexists; reflexivity.
+  - repeat split; try (exists []; rewrite app_nil_r; reflexivity); eexists; reflexivity.
+  - repeat split; try (exists []; rewrite app_nil_r; reflexivity). apply add_key_pre.
+  - repeat split; try (exists []; rewrite app_nil_r; reflexivity). apply add_struct_pre.
+  - destruct (index_of name (c_ffi (s_env st))); simpl;
+      repeat split; try (exists []; rewrite app_nil_r; reflexivity); eexists; reflexivity.
+Qed.
+
+Lemma cstmts_pre : forall (p : program Q) st, pre st (cstmts p st).
+Proof.
+  induction p as [|s p IH]; intro st; simpl.
+  - apply pre_refl.
+  - eapply pre_trans; [apply cstmt_pre | apply IH].
+Qed.
+
+Lemma cstmts_cons : forall (s : stmt Q) p st, cstmts (s :: p) st = cstmts p (cstmt s st).
+Proof. reflexivity. Qed.
+
+End Prefix.
+
+(* ------------------------------------------------------------------ *)
+(* list facts for the statement level *)
+Lemma firstn_app_le {A} : forall n (l l' : list A), n <= length l -> firstn n (l ++ l') = firstn n l.
+Proof.
+  intros. rewrite firstn_app. replace (n - length l) with 0 by lia. simpl. apply app_nil_r.
+Qed.
+
+Lemma fn_lookup_snoc : forall x l f b,
+  fn_lookup x (l ++ [(f, b)]) = if String.eqb f x then Some b else fn_lookup x l.
+Proof.
+  induction l as [|[y c] l IH]; intros f b; simpl.
+  - destruct (String.eqb f x); reflexivity.
+  - rewrite IH. destruct (String.eqb f x); reflexivity.
+Qed.
+
+Lemma find_last_snoc {A} : forall x (l : list (string * A)) f a,
+  find_last x (l ++ [(f, a)]) = if String.eqb f x then Some (length l, a) else find_last x l.
+Proof.
+  induction l as [|[y c] l IH]; intros f a; simpl.
+  - destruct (String.eqb f x); reflexivity.
+  - rewrite IH. destruct (String.eqb f x); reflexivity.
+Qed.
+
+Lemma mem_app : forall x a b, mem x (a ++ b) = (mem x a || mem x b)%bool.
+Proof. intros. unfold mem. apply existsb_app. Qed.
+
+Lemma index_of_mem : forall x l,
+  match index_of x l with Some _ => mem x l = true | None => mem x l = false end.
+Proof.
+  induction l as [|y l IH]; simpl; [reflexivity|].
+  rewrite (String.eqb_sym x y). destruct (String.eqb y x); simpl; [reflexivity|].
+  destruct (index_of x l); exact IH.
+Qed.
+
+Lemma index_of_assoc_fst {A} : forall x (l : list (string * A)),
+  match index_of x (map fst l), assoc x l with
+  | Some i, Some a => nth_error l i = Some (x, a)
+  | None, None => True
+  | _, _ => False
+  end.
+Proof.
+  induction l as [|[y a] l IH]; simpl; [exact I|].
+  destruct (String.eqb y x) eqn:E.
+  - apply String.eqb_eq in E. subst. reflexivity.
+  - destruct (index_of x (map fst l)); destruct (assoc x l); try contradiction; [exact IH | exact I].
+Qed.
+
+(* ------------------------------------------------------------------ *)
+Section Top.
+Context {Q : Type}.
+Variable O : ops Q.
+Variable stale : string -> nat -> bool.
+Variable lits : bool * bool.
+Hypothesis Hlits : lits = (false, false).
+Variable fin : @cstate Q.
+Notation C := (finish fin).
+Hypothesis Hok : compile_ok (finish fin) = true.
+Hypothesis Hstale : forall name idx,
+  stale name idx = false -> rposition name (chunk_names (finish fin)) = Some idx.
+
+Definition wext (W W' : @world Q) : Prop :=
+  (exists r, w_globals W' = w_globals W ++ r) /\
+  (exists r, w_fns W' = w_fns W ++ r) /\
+  (exists r, w_foreign W' = w_foreign W ++ r) /\
+  (exists r, w_structs W' = w_structs W ++ r).
+
+Lemma cenv_rel_grow : forall W W' ce vg vn vf,
+  cenv_rel O C W ce vg vn vf ->
+  vg <= length (w_globals W) -> vn <= length (w_fns W) -> vf <= length (w_foreign W) ->
+  wext W W' -> cenv_rel O C W' ce vg vn vf.
+Proof.
+  intros W W' ce vg vn vf (H1 & H2 & H3 & H4 & H5 & H6 & H7) Lg Ln Lf ([g Eg] & [f Ef] & [o Eo] & [s Es]).
+  unfold cenv_rel. rewrite Eg, Ef, Eo, Es. rewrite !firstn_app_le by assumption.
+  refine (conj H1 (conj H2 (conj H3 (conj H4 (conj H5 (conj H6 _)))))).
+  destruct H7 as [r E]. exists (r ++ s). rewrite E, app_assoc. reflexivity.
+Qed.
+
+Definition fun_ok (W : @world Q) (i : nat) (name : string) (fd : @fdef Q) : Prop :=
+  (exists ce nk na,
+     nth_error (p_chunks C) (S i)
+       = Some (name, f_code (cfun ce (fd_params fd) (fd_locals fd) (fd_body fd) nk na)) /\
+     consts_at C nk (f_consts (cfun ce (fd_params fd) (fd_locals fd) (fd_body fd) nk na)) /\
+     nomark (f_code (cfun ce (fd_params fd) (fd_locals fd) (fd_body fd) nk na)) /\
+     cenv_rel O C W ce (fd_nglob fd) (S i) (fd_nforeign fd)) /\
+  fd_nglob fd <= length (w_globals W) /\ fd_nforeign fd <= length (w_foreign W).
+
+Definition funs_inv (W : @world Q) : Prop :=
+  forall i name fd, nth_error (w_fns W) i = Some (name, fd) -> fun_ok W i name fd.
+
+Lemma fun_ok_grow : forall W W' i name fd,
+  fun_ok W i name fd -> nth_error (w_fns W) i = Some (name, fd) -> wext W W' -> fun_ok W' i name fd.
+Proof.
+  intros W W' i name fd [(ce & nk & na & A & B & D & E) [Lg Lf]] Hi Hext.
+  assert (Li : S i <= length (w_fns W)) by (apply nth_error_Some; congruence).
+  pose proof Hext as ([g Eg] & _ & [o Eo] & _).
+  split; [|split].
+  - exists ce, nk, na. refine (conj A (conj B (conj D _))).
+    eapply cenv_rel_grow; eassumption.
+  - rewrite Eg, app_length. lia.
+  - rewrite Eo, app_length. lia.
+Qed.
+
+Definition Inv (st : @cstate Q) (rst : @rstate Q) (ms : @mstate Q) : Prop :=
+  pre st fin /\
+  cenv_rel O C (r_world rst) (s_env st) (length (w_globals (r_world rst)))
+           (length (w_fns (r_world rst))) (length (w_foreign (r_world rst))) /\
+  c_locals (s_env st) = None /\
+  w_structs (r_world rst) = c_structs (s_env st) /\
+  funs_inv (r_world rst) /\
+  length (s_fns st) = length (w_fns (r_world rst)) /\
+  ms = {| m_frames := [F 0 (csize (s_main st)) 0];
+          m_stack := rev (map snd (w_globals (r_world rst)));
+          m_last := w_last (r_world rst); m_out := r_out rst; m_res := r_res rst |}.
+
+Lemma Inv_RelW : forall st rst ms, Inv st rst ms -> RelW O stale C (r_world rst).
+Proof.
+  intros st rst ms (Hpre & Hrel & _ & _ & Hf & _). split; [|split].
+  - intros i name fd Hi. destruct (Hf i name fd Hi) as [H _]. exact H.
+  - intros x Hx. destruct Hrel as (_ & _ & _ & [rest Effi] & Hmem & _).
+    specialize (Hmem x). rewrite firstn_all in Hmem.
+    destruct (index_of x (c_ffi (s_env st))) as [i|] eqn:E; [|congruence].
+    simpl in Effi |- *. rewrite Effi. rewrite (index_of_app _ _ rest _ E). discriminate.
+  - exact Hstale.
+Qed.
+
+(* facts about the final chunks *)
+Lemma main_chunk : nth_error (p_chunks C) 0 = Some ("<main>"%string, s_main fin).
+Proof. reflexivity. Qed.
+
+Lemma main_at : forall m code tail r, s_main fin = (m ++ code ++ tail) ++ r -> at_code C 0 (csize m) code.
+Proof.
+  intros m code tail r E. exists "<main>"%string, m, (tail ++ r). split; [|reflexivity].
+  rewrite main_chunk. rewrite E. rewrite <- !app_assoc. reflexivity.
+Qed.
+
+Lemma consts_pre_at : forall k ks r, s_consts fin = (k ++ ks) ++ r -> consts_at C (length k) ks.
+Proof.
+  intros k ks r E. exists k, r. split; [|reflexivity]. simpl. rewrite E, <- app_assoc. reflexivity.
+Qed.
+
+Lemma main_nomark : forall m code r, s_main fin = (m ++ code) ++ r -> nomark code.
+Proof.
+  intros m code r E. unfold compile_ok in Hok. simpl in Hok.
+  apply andb_prop in Hok. destruct Hok as [H _]. apply andb_prop in H. destruct H as [H _].
+  unfold chunk_ok in H. apply andb_prop in H. destruct H as [H _].
+  rewrite E in H. apply forallb_app_inv in H. destruct H as [H _].
+  apply forallb_app_inv in H. destruct H as [_ H]. exact H.
+Qed.
+
+Lemma fn_chunk_nomark : forall a name code r, s_fns fin = (a ++ [(name, code)]) ++ r -> nomark code.
+Proof.
+  intros a name code r E. unfold compile_ok in Hok. simpl in Hok.
+  apply andb_prop in Hok. destruct Hok as [H _]. apply andb_prop in H. destruct H as [_ H].
+  rewrite E in H. apply forallb_app_inv in H. destruct H as [H _].
+  apply forallb_app_inv in H. destruct H as [_ H]. simpl in H.
+  apply andb_prop in H. destruct H as [H _]. unfold chunk_ok in H.
+  apply andb_prop in H. destruct H as [H _]. exact H.
+Qed.
+
+(* evaluating a top-level expression *)
+Lemma top_expr : forall st rst ms n e v tail r1 r2,
+  Inv st rst ms ->
+  top_eval O stale lits n (r_world rst) e = Ok v ->
+  s_main fin = (s_main st ++ f_code (cexpr (s_env st) e (length (s_consts st)) (s_na st)) ++ tail) ++ r1 ->
+  s_consts fin = (s_consts st ++ f_consts (cexpr (s_env st) e (length (s_consts st)) (s_na st))) ++ r2 ->
+  exists k, steps O C k ms
+            = Some (St 0 (csize (s_main st) + csize (f_code (cexpr (s_env st) e (length (s_consts st)) (s_na st))))
+                       0 [] ([v] ++ rev (map snd (w_globals (r_world rst)))) ms).
+Proof.
+  intros st rst ms n e v tail r1 r2 HI H Em Ek.
+  pose proof (Inv_RelW _ _ _ HI) as HW.
+  destruct HI as (Hpre & Hrel & Hloc & _ & _ & _ & Ems).
+  assert (Hs : stack_ok (r_world rst) (s_env st) [] 0 (rev (map snd (w_globals (r_world rst))))).
+  { split; [exists []; reflexivity|]. rewrite Hloc. split; reflexivity. }
+  assert (Hm : nomark (f_code (cexpr (s_env st) e (length (s_consts st)) (s_na st)))).
+  { rewrite app_assoc in Em. rewrite <- app_assoc in Em.
+    eapply (main_nomark (s_main st) _ (tail ++ r1)).
+    rewrite Em. rewrite <- !app_assoc. reflexivity. }
+  unfold top_eval in H.
+  destruct (expr_correct O stale lits C (r_world rst) Hlits HW n _ _ _ _ _ _ H (s_env st) 0 0 [] Hrel
+              _ _ (csize (s_main st)) _ ms Hs (eq_trans (f_equal (@m_last Q) Ems) eq_refl)
+              (main_at _ _ _ _ Em) (consts_pre_at _ _ _ Ek) Hm) as [k S1].
+  exists k. rewrite <- S1. f_equal. rewrite Ems. reflexivity.
+Qed.
+
+
+Lemma wext_refl : forall W, wext W W.
+Proof. intro W. repeat split; exists []; rewrite app_nil_r; reflexivity. Qed.
+
+Lemma funs_inv_grow_same : forall W W',
+  funs_inv W -> wext W W' -> w_fns W' = w_fns W -> funs_inv W'.
+Proof.
+  intros W W' Hf Hext E i name fd Hi. rewrite E in Hi.
+  eapply fun_ok_grow; [apply Hf| |]; eassumption.
+Qed.
+
+Lemma step_expr : forall n e st rst rst' ms,
+  Inv st rst ms -> pre (cstmt (SExpr e) st) fin ->
+  exec_stmt O stale lits n (SExpr e) rst = Ok rst' ->
+  exists k ms', steps O C k ms = Some ms' /\ Inv (cstmt (SExpr e) st) rst' ms'.
+Proof.
+  intros n e st rst rst' ms HI Hpre H. simpl in H.
+  apply bind_ok in H. destruct H as (v & Hv & H). inversion H; subst rst'; clear H.
+  pose proof Hpre as ([r2 Ek] & [r1 Em] & _). simpl in Ek, Em.
+  destruct (top_expr st rst ms n e v [IReturn] r1 r2 HI Hv Em Ek) as [k1 S1].
+  set (fr := cexpr (s_env st) e (length (s_consts st)) (s_na st)) in *.
+  pose proof (main_at _ _ _ _ Em) as Ha.
+  assert (Har : at_code C 0 (csize (s_main st) + csize (f_code fr)) [IReturn]).
+  { exists "<main>"%string, (s_main st ++ f_code fr), r1. split.
+    - rewrite main_chunk, Em. rewrite <- !app_assoc. reflexivity.
+    - apply csize_app. }
+  destruct HI as (Hp & Hrel & Hloc & Hst & Hf & Hlen & Ems).
+  eexists (k1 + 1), _. split.
+  - eapply steps_trans; [exact S1|]. eapply run_one; [exact Har|]. reflexivity.
+  - refine (conj Hpre (conj Hrel (conj Hloc (conj Hst (conj Hf (conj Hlen _)))))).
+    simpl. rewrite Ems. simpl. rewrite !csize_app. simpl. rewrite Nat.add_assoc. reflexivity.
+Qed.
+
+Lemma firstn_snoc_all {A} : forall (l : list A) a, firstn (length l + 1) (l ++ [a]) = l ++ [a].
+Proof. intros. rewrite <- (firstn_all (l ++ [a])) at 2. rewrite app_length. reflexivity. Qed.
+
+Lemma step_let : forall n x e st rst rst' ms,
+  Inv st rst ms -> pre (cstmt (SLet x e) st) fin ->
+  exec_stmt O stale lits n (SLet x e) rst = Ok rst' ->
+  exists k ms', steps O C k ms = Some ms' /\ Inv (cstmt (SLet x e) st) rst' ms'.
+Proof.
+  intros n x e st rst rst' ms HI Hpre H. simpl in H.
+  apply bind_ok in H. destruct H as (v & Hv & H). inversion H; subst rst'; clear H.
+  pose proof Hpre as ([r2 Ek] & [r1 Em] & _). simpl in Ek, Em.
+  destruct (top_expr st rst ms n e v [] r1 r2 HI Hv Em Ek) as [k1 S1].
+  set (fr := cexpr (s_env st) e (length (s_consts st)) (s_na st)) in *.
+  destruct HI as (Hp & Hrel & Hloc & Hst & Hf & Hlen & Ems).
+  set (W := r_world rst) in *.
+  assert (Hext : wext W {| w_globals := w_globals W ++ [(x, v)]; w_fns := w_fns W;
+                           w_foreign := w_foreign W; w_structs := w_structs W; w_last := w_last W |}).
+  { repeat split; simpl; try (exists []; rewrite app_nil_r; reflexivity). exists [(x, v)]. reflexivity. }
+  eexists k1, _. split; [exact S1|].
+  refine (conj Hpre (conj _ (conj Hloc (conj Hst (conj _ (conj Hlen _)))))).
+  - destruct Hrel as (H1 & H2 & H3 & H4 & H5 & H6 & H7).
+    unfold cenv_rel. simpl. rewrite app_length. simpl.
+    refine (conj _ (conj H2 (conj H3 (conj H4 (conj H5 (conj H6 H7)))))).
+    rewrite firstn_snoc_all. rewrite map_app. simpl. rewrite H1. rewrite firstn_all. reflexivity.
+  - simpl. eapply funs_inv_grow_same; [exact Hf | exact Hext | reflexivity].
+  - simpl. rewrite Ems. unfold St, mk. simpl. rewrite map_app, rev_app_distr. simpl.
+    rewrite app_nil_r, csize_app. reflexivity.
+Qed.
+
+End Top.
